@@ -9,7 +9,12 @@ model run: the same session through the Lean model (Model/Retry.lean, Model/Send
            loop is generic in the consumer and the read size, instantiated with the C01 copying and buffered consumers.
 oracle   : per call — time spent waiting (select + lock) <= T, elapsed <= T + processing + over-sleep, zero timeout
            never waits, TimeoutError only after >= T elapsed and only while no complete packet had been delivered by
-           the socket; packets returned == decoding of the bytes delivered, in order.
+           the socket; packets returned == decoding of the bytes delivered, in order; with a finite retry_interval every
+           select() wait is <= retry_interval whatever the timeout (also None) and the call never sleeps without a bound.
+           Asynchronous iterator (vlib/c11_async.py, oracle only): budget carried across packets (`aiter`), and - `aiterbuf`:
+           real AsyncTCPNetworkClient on loopback / in-memory client under a virtual-time loop - a packet already in the
+           client's buffer is handed out whatever the budget (0, default, exhausted); TimeoutError only when the next
+           packet really cannot arrive within what is left.
 """
 from __future__ import annotations
 
@@ -54,7 +59,9 @@ ASSUMPTIONS = [
 RULE = (
     "case = session config (stream endpoint | TCP client | datagram transport; plain | TLS; copy | buffered; max_recv_size; retry_interval) x "
     "sequence of calls (recv_packet / send_packet / iter_received_packets / processing ticks) each with timeout, lock contention, socket "
-    "script (drip-feed, bursts, would-block, EOF, reset) and selector script (ready after d, expired, over-sleep); non-trivial = "
+    "script (drip-feed, bursts, would-block, EOF, reset) and selector script (ready after d, expired, over-sleep, never-ready "
+    "descriptor; no time budget x finite retry_interval over-sampled); asynchronous iterator: delays x gaps x budget, and buffered "
+    "bursts x recv_packet() first x timeout 0 / default / run down to 0 by processing time x later arrivals (TCP loopback, in-memory); non-trivial = "
     "at least one select() or lock wait or partial read happened; distinct by full case digest"
 )
 
@@ -62,7 +69,7 @@ RULE = (
 # ----------------------------------------------------------------------------------------------------------------
 
 def run_real(case: dict) -> list[str]:
-    if case.get("kind") == "aiter":
+    if case.get("kind") in ("aiter", "aiterbuf"):
         from vlib import c11_async
 
         return c11_async.run_real(case)
@@ -82,12 +89,13 @@ def _t(t) -> str:
 
 def _scripts(op: dict) -> list[str]:
     out = [f"sock {k} {n} {p}" for k, n, p in op.get("sock", [])]
-    out += [f"sel {k} {d}" for k, d in op.get("sel", [])]
+    # `never d` (vlib/c04_env.py: the descriptor never signals, only bounded waits come back) is `expired d` for the model
+    out += [f"sel {'expired' if k == 'never' else k} {d}" for k, d in op.get("sel", [])]
     return out
 
 
 def model_input(case: dict, real: list[str]):
-    if case.get("kind") == "aiter":
+    if case.get("kind") in ("aiter", "aiterbuf"):
         return None
     cfg = case["cfg"]
     head = (f"tmo {cfg['kind']} {cfg['layer']} {cfg['flavour']} {cfg['path']} {cfg['bufsize']} {_t(cfg['ri'])} "
@@ -187,7 +195,7 @@ def _account(call: dict):
 
 
 def oracle(case: dict, real: list[str]) -> str | None:
-    if case.get("kind") == "aiter":
+    if case.get("kind") in ("aiter", "aiterbuf"):
         from vlib import c11_async
 
         return c11_async.oracle(case, real)
@@ -202,6 +210,20 @@ def oracle(case: dict, real: list[str]) -> str | None:
         waited, over, proc, lockwait, nsel, consumed, ret, tm, unbounded = _account(call)
         if ret is None or tm is None:
             return f"call without outcome: {call['lines'][-3:]}"
+        # retry_interval: with a finite retry interval every select() is bounded by it whatever the timeout (also None) - that
+        # is how a would-block condition which the descriptor never signals is still re-tried (and how the remaining budget is
+        # re-examined); an unbounded select() there blocks for ever
+        if cfg["ri"] is not None:
+            for ln in call["lines"]:
+                p = ln.split()
+                if p[0] == "select" and (p[2] == "inf" or float(p[2]) > cfg["ri"]):
+                    return (f"select() {'without any timeout' if p[2] == 'inf' else 'for ' + p[2] + ' ticks'} although "
+                            f"retry_interval={cfg['ri']} (timeout={call['T'] if call['iter'] is None else call['iter'][1]}): "
+                            "the operation is not re-tried every retry_interval")
+        if ret == "exhausted hang":
+            if cfg["ri"] is None:
+                return None     # no retry interval and no budget left to bound the wait: waiting for ever is what was asked for
+            return "the call blocks for ever: select() without timeout on a descriptor that never signals the awaited condition"
         if ret.startswith("exhausted"):
             return None   # the environment script of this call ended: nothing more can be said (generator pads scripts)
         T = call["T"]
@@ -311,6 +333,8 @@ def oracle(case: dict, real: list[str]) -> str | None:
 
 
 def nontrivial(case: dict, real: list[str]) -> str | None:
+    if case.get("kind") == "aiterbuf":
+        return f"aiterbuf/{case['client']}/{case['path']}"
     if case.get("kind") == "aiter":
         return "aiter"
     cfg = case["cfg"]
@@ -332,6 +356,12 @@ def nontrivial(case: dict, real: list[str]) -> str | None:
 
 
 def shrink(case: dict):
+    if case.get("kind") == "aiterbuf":
+        ops = case["ops"]
+        for i in range(len(ops)):
+            if len(ops) > 1:
+                yield {**case, "ops": ops[:i] + ops[i + 1:]}
+        return
     if case.get("kind") == "aiter":
         calls = case["calls"]
         for i in range(len(calls)):
@@ -355,13 +385,16 @@ def shrink(case: dict):
         if op["op"] == "iter" and len(op["nexts"]) > 1:
             yield {**case, "ops": ops[:i] + [{**op, "nexts": op["nexts"][:-1]}] + ops[i + 1:]}
     cfg = case["cfg"]
-    if cfg["ri"] is not None:
+    never = any(e[0] == "never" for o in ops for x in [o] + o.get("nexts", []) for e in x.get("sel", []))
+    if cfg["ri"] is not None and not never:
         yield {**case, "cfg": {**cfg, "ri": None}}
     if cfg["layer"] == "client" and not any(o["op"] == "iter" for o in ops):
         yield {**case, "cfg": {**cfg, "layer": "endpoint"}}
 
 
 def known_key(case: dict, real: list[str], why: str) -> str:
+    if case.get("kind") == "aiterbuf":
+        return f"kind=aiterbuf,client={case['client']},path={case['path']}"
     if case.get("kind") == "aiter":
         return "kind=aiter"
     cfg = case["cfg"]
@@ -390,7 +423,9 @@ def _recv(T, sock, sel, lock=None, bufsize=4) -> dict:
 
 
 def corpus() -> list[dict]:
-    cs = []
+    from vlib import c11_async
+
+    cs = list(c11_async.corpus_buffered())
     for fl, blk in (("plain", "eagain"), ("tls", "wantr")):
         # drip-feed, one byte per wake-up, budget just enough / just not enough
         drip = [[blk, 0, 0], ["data", "61", 0], [blk, 0, 0], ["data", "62", 0], [blk, 0, 0], ["data", "0a", 0]]
@@ -412,6 +447,23 @@ def corpus() -> list[dict]:
         # EOF / reset
         cs.append({"cfg": _cfg(flavour=fl), "ops": [_recv(3, [["data", "61", 0], ["data", "-", 0]], []), _recv(3, [], [])]})
         cs.append({"cfg": _cfg(flavour=fl), "ops": [_recv(3, [[blk, 0, 0], ["reset", 0, 0]], [["ready", 1]])]})
+        # NO time budget, finite retry_interval, a would-block condition the descriptor NEVER signals (selector: only expiries):
+        # every _retry caller must wake up every retry_interval and try again - k blocks = k waits, then the call completes
+        for path in ("copy", "buffered"):
+            for layer in ("endpoint", "client"):
+                for ri_ in (1, 3):
+                    cs.append({"cfg": _cfg(layer=layer, flavour=fl, path=path, ri=ri_), "ops": [
+                        _recv(None, [[blk, 0, 0], [blk, 0, 1], ["data", "61", 0], [blk, 0, 0], ["data", "0a", 0]], [["never", 0]] * 3),
+                        {"op": "send", "T": None, "data": "6162", "lock": ["free"],
+                         "sock": [[blk, 0, 0], ["sent", 1, 0], [blk, 0, 0], [blk, 0, 0]] + [["sent", 99, 0]] * 4, "sel": [["never", 0]] * 3},
+                        _recv(5, [[blk, 0, 0]] * 6, [["never", 0]] * 6)]})
+    for ri_ in (1, 2):
+        cs.append({"cfg": _cfg(kind="dgram", bufsize=64, ri=ri_), "ops": [
+            {"op": "recv", "T": None, "sock": [["eagain", 0, 0], ["eintr", 0, 1], ["eagain", 0, 0], ["data", "6162", 0]], "sel": [["never", 0]] * 3},
+            {"op": "send", "T": None, "data": "6162", "sock": [["eagain", 0, 0], ["eagain", 0, 0], ["sent", 2, 0]], "sel": [["never", 1]] * 2}]})
+        cs.append({"cfg": _cfg(layer="client", ri=ri_), "ops": [{"op": "iter", "T": None, "nexts": [
+            {"gap": 0, "lock": ["free"], "sock": [["eagain", 0, 0], ["eagain", 0, 0], ["data", "610a", 0]] + _pad_recv(4), "sel": [["never", 0]] * 2},
+            {"gap": 2, "lock": ["free"], "sock": [["eagain", 0, 0], ["data", "620a", 0]] + _pad_recv(4), "sel": [["never", 0]]}]}]})
     # lock contention is part of the budget
     drip = [["eagain", 0, 0], ["data", "610a", 0]]
     cs.append({"cfg": _cfg(layer="client"), "ops": [_recv(5, drip, [["ready", 2]], lock=["busy", 3])]})
@@ -489,6 +541,9 @@ def gen_recv_script(rng, flavour: str, bufsize: int, T, ri, carry: list, *, allo
     nblocks = sum(1 for e in sock if e[0] in env.BLOCK_KINDS)
     unbounded = T is None and ri is None
     sel = []
+    if not unbounded and rng.random() < 0.15:
+        # the descriptor never signals the awaited condition: only the bounded waits (retry_interval / rest of the budget) end
+        return sock, [["never", rng.choice([0, 0, 0, 1])] for _ in range(nblocks + 2)]
     for _ in range(nblocks + 2):
         if rng.random() < (0.97 if unbounded else 0.6):
             sel.append(["ready", rng.choice([0, 0, 1, 1, 2, 3, 5])])
@@ -508,11 +563,12 @@ def generate(rng, tier: str, boost: int):
     for _ in range(n):
         r = rng.random()
         ri = rng.choice([None, None, 1, 2, 3])
+        no_budget = ri is not None and rng.random() < 0.15     # no time budget x finite retry interval (the clients' default)
         if r < 0.12:
             cfg = _cfg(kind="dgram", bufsize=64, ri=ri)
             ops = []
             for _ in range(rng.randint(1, 4)):
-                T = rng.choice([None, 0, 1, 2, 3, 5, 8])
+                T = None if no_budget else rng.choice([None, 0, 1, 2, 3, 5, 8])
                 if rng.random() < 0.7:
                     sock, sel = gen_recv_script(rng, "plain", 64, T, ri, [], dgram=True)
                     ops.append({"op": "recv", "T": T, "sock": sock, "sel": sel})
@@ -522,6 +578,8 @@ def generate(rng, tier: str, boost: int):
                     unb = T is None and ri is None
                     sel = [["ready", rng.choice([0, 1, 2, 4])] if rng.random() < (0.97 if unb else 0.6) else ["expired", rng.choice([0, 1])]
                            for _ in range(len(sock))]
+                    if not unb and rng.random() < 0.15:
+                        sel = [["never", 0] for _ in sock]
                     ops.append({"op": "send", "T": T, "data": "6162", "sock": sock, "sel": sel})
             yield {"cfg": cfg, "ops": ops}
             continue
@@ -534,7 +592,7 @@ def generate(rng, tier: str, boost: int):
         dead = False
         for _ in range(rng.randint(1, 4)):
             k = rng.random()
-            T = rng.choice([None, 0, 0, 1, 2, 3, 5, 8])
+            T = None if no_budget else rng.choice([None, 0, 0, 1, 2, 3, 5, 8])
             if k < 0.1:
                 ops.append({"op": "tick", "p": rng.randint(1, 5)})
             elif k < 0.2:
@@ -548,11 +606,12 @@ def generate(rng, tier: str, boost: int):
                 ops.append(op)
             elif k < 0.4 and layer == "client":
                 nexts = []
+                T_it = T if no_budget else rng.choice([0, 1, 2, 3, 5, 8, 13, None])
                 for _ in range(rng.randint(1, 4)):
-                    sock, sel = gen_recv_script(rng, flavour, bufsize, T, ri, [], allow_end=False)
+                    sock, sel = gen_recv_script(rng, flavour, bufsize, T_it, ri, [], allow_end=False)
                     nexts.append({"gap": rng.choice([0, 0, 1, 3]), "lock": gen_lock(rng),
                                   "sock": sock + _pad_recv(bufsize), "sel": sel})
-                ops.append({"op": "iter", "T": rng.choice([0, 1, 2, 3, 5, 8, 13, None]), "nexts": nexts})
+                ops.append({"op": "iter", "T": T_it, "nexts": nexts})
             else:
                 sock, sel = gen_recv_script(rng, flavour, bufsize, T, ri, [], allow_end=not dead)
                 op = {"op": "recv", "T": T, "sock": sock + _pad_recv(bufsize), "sel": sel}
